@@ -765,6 +765,11 @@ def run_property(pid, tier="quick", seed=0, update_baseline=False, jobs=None):
     evdir = os.environ.get("VERIF_EVIDENCE_DIR") or os.path.join(ROOT, "evidence")
     os.makedirs(evdir, exist_ok=True)
     json.dump(evidence, open(os.path.join(evdir, f"{pid}.json"), "w"), indent=1, default=str)
+    if tier == "thorough":
+        # the thorough run's evidence (Lean cross-check, engine self-test, larger families) is kept next to the one of the quick run,
+        # which overwrites evidence/<id>.json on every change
+        os.makedirs(os.path.join(evdir, "thorough"), exist_ok=True)
+        json.dump(evidence, open(os.path.join(evdir, "thorough", f"{pid}.json"), "w"), indent=1, default=str)
 
     if update_baseline:
         path = os.path.join(ROOT, "baseline", "obligations.json")
